@@ -113,6 +113,18 @@ def run_case(ctx, d):
     nfeat = nflat // chan
     poly = make_model(rng, d, nflat)
     rec = Rec(poly)
+    if d.get("squeeze"):
+        # a callable that drops size-1 dimensions of its prediction (np.squeeze(model.predict(x)) wrappers):
+        # (L,) for a single row - the case the implementation's "prediction dimension disappeared" repair handles
+        inner = rec
+
+        class Squeezing:
+            def __call__(self, z):
+                out = np.asarray(inner(z))
+                return out[0] if out.shape[0] == 1 else out
+        rec_model = Squeezing()
+    else:
+        rec_model = rec
     vals = [a for a in (-4.0, -2.0, -1.0, 1.0, 2.0, 4.0) if a != v]
     x = rng.choice(vals, size=(n,) + shape).astype(np.float32)
     y = small_ints(rng, (n, 2), -2, 2)
@@ -130,7 +142,7 @@ def run_case(ctx, d):
         tf.random.set_seed(d["case_seed"] % (1 << 30))
         Rise._get_masks = staticmethod(wrapped)
         try:
-            expl = Rise(rec, batch_size=bs, nb_samples=nb, preservation_probability=p, mask_value=v, **kw)
+            expl = Rise(rec_model, batch_size=bs, nb_samples=nb, preservation_probability=p, mask_value=v, **kw)
             return expl(x, y).numpy(), float(np.float32(Rise.EPSILON))
         finally:
             Rise._get_masks = orig
@@ -317,6 +329,14 @@ def gen_cases(ctx):
             d["grid"] = g if rng.random() < 0.4 else [g, int(rng.integers(1, 8))]
         if rng.random() < 0.15:
             d["const"] = [int(rng.integers(-3, 4)), int(rng.integers(1, 4))]
+        if rng.random() < 0.2:
+            # squeezing model + a last batch of exactly one masked input (or batch size 1)
+            d["squeeze"] = True
+            if nb >= 2 and rng.random() < 0.7:
+                cand = [b for b in range(2, nb + 1) if nb % b == 1]
+                d["bs"] = int(rng.choice(cand)) if cand else 1
+            else:
+                d["bs"] = 1
         cases.append(d)
     # malformed stream: time series, tuple grid whose second entry differs from the feature count
     for _ in range(2):
